@@ -17,8 +17,9 @@ import (
 // C07 — the decoded packet does not depend on how the stream is fragmented.
 
 type caseC07 struct {
-	Frame Hex          `json:"frame"`
-	Steps []guard.Step `json:"steps"`
+	Frame  Hex          `json:"frame"`
+	Steps  []guard.Step `json:"steps"`
+	Reader string       `json:"reader,omitempty"` // concrete reader type wrapped around the schedule
 }
 
 func contiguous(frame []byte) readResult {
@@ -30,14 +31,15 @@ func contiguous(frame []byte) readResult {
 	return resultOf(p, err, pan)
 }
 
-func checkC07(frame []byte, steps []guard.Step) (sig, msg string) {
+func checkC07(frame []byte, steps []guard.Step, reader string) (sig, msg string) {
 	base := contiguous(frame)
 	sr := &guard.ScriptReader{Data: frame, Steps: steps}
-	got := readScripted(sr, len(frame), func() interface{} {
-		return vf.Failure{Property: "C07", Kind: "hang", Case: mustJSON(caseC07{frame, steps}), Signature: "hang"}
+	rd, _ := wrappedStream(reader, sr)
+	got := readFrom(rd, len(frame), func() interface{} {
+		return vf.Failure{Property: "C07", Kind: "hang", Case: mustJSON(caseC07{frame, steps, reader}), Signature: "hang"}
 	})
 	if d := sameResult(base, got); d != "" {
-		return "fragmentation", fmt.Sprintf("frame %s delivered as %s: %s\ncontiguous: ok=%v err=%v\nfragmented: ok=%v err=%v", hx(frame), renderSteps(steps), d, base.OK, base.Err, got.OK, got.Err)
+		return "fragmentation", fmt.Sprintf("frame %s delivered (%s reader) as %s: %s\ncontiguous: ok=%v err=%v\nfragmented: ok=%v err=%v", hx(frame), reader, renderSteps(steps), d, base.OK, base.Err, got.OK, got.Err)
 	}
 	return "", ""
 }
@@ -109,7 +111,7 @@ func TestC07(t *testing.T) {
 		if err := json.Unmarshal(rf.Case, &c); err != nil {
 			t.Fatalf("replay %s: %v", rf.Source, err)
 		}
-		_, msg := checkC07(c.Frame, c.Steps)
+		_, msg := checkC07(c.Frame, c.Steps, c.Reader)
 		r.Case(vf.FPs("replay", string(c.Frame), fmt.Sprint(c.Steps)), true, "replay", func() interface{} { return c })
 		if msg != "" {
 			r.FailReplay(rf, "%s", msg)
@@ -135,13 +137,13 @@ func TestC07(t *testing.T) {
 			ch := composition(n, i)
 			for v := 0; v < 4; v++ {
 				steps := schedule(ch, v&1 != 0, v&2 != 0)
-				sig, msg := checkC07(f, steps)
+				sig, msg := checkC07(f, steps, "script")
 				nt, class := c07Nontrivial(f, steps)
 				r.Case(vf.FPs(string(f), fmt.Sprint(steps)), nt, "exhaustive/"+class, func() interface{} {
 					return map[string]interface{}{"frame": hx(f), "reads": renderSteps(steps)}
 				})
 				if msg != "" {
-					r.Fail("fragmentation", caseC07{f, steps}, sig, "%s", msg)
+					r.Fail("fragmentation", caseC07{f, steps, "script"}, sig, "%s", msg)
 					goto generated
 				}
 			}
@@ -166,13 +168,14 @@ generated:
 			}
 			steps = st
 		}
-		sig, msg := checkC07(frame, steps)
+		reader := rapid.SampledFrom(wrapKinds).Draw(t, "reader")
+		sig, msg := checkC07(frame, steps, reader)
 		nt, class := c07Nontrivial(frame, steps)
-		r.Case(vf.FPs(string(frame), fmt.Sprint(steps)), nt, kind+"/"+class, func() interface{} {
-			return map[string]interface{}{"frame": hx(frame), "reads": renderSteps(steps)}
+		r.Case(vf.FPs(string(frame), fmt.Sprint(steps), reader), nt, kind+"/"+class+"/"+reader, func() interface{} {
+			return map[string]interface{}{"frame": hx(frame), "reads": renderSteps(steps), "reader": reader}
 		})
 		if msg != "" {
-			r.Fail("fragmentation", caseC07{frame, steps}, sig, "%s", msg)
+			r.Fail("fragmentation", caseC07{frame, steps, reader}, sig, "%s", msg)
 			t.Fatalf("%s", msg)
 		}
 	})
